@@ -1,7 +1,7 @@
 (* C01: the position (velocity) the code returns on a converged exit is within 1e-6 km (1e-9 km/s) of the one the report
-   defines - the finishing map at the EXACT solution of Kepler's equation - for semi-major axis <= 2 earth radii and
+   defines - the finishing map at the EXACT solution of Kepler's equation - for semi-major axis <= 4 earth radii (the velocity: any) and
    eL^2 <= 4/25, over the reals.  Chain: exit theorem (state = finishing map at Ew, residual < 1e-12), Kepler
-   (|Ew - E*| (1 - eL) < 1e-12), Lipschitz bound of the position in Ew (310000 km/rad). *)
+   (|Ew - E*| (1 - eL) < 1e-12), Lipschitz bound of the position in Ew (570000 km/rad). *)
 From Coq Require Import Reals Lra.
 From PyOrb.lib Require Import PyReal SgpOutcome.
 From PyOrb.spec Require Import Spec_SGP4.
@@ -31,7 +31,7 @@ Section Generic.
   Variable t : tstate.
   Variable e : R.
   Hypothesis HA1 : 1 <= a el t.
-  Hypothesis HA2 : a el t <= 2.
+  Hypothesis HA2 : a el t <= 4.
   Hypothesis HeL : eL2 el t e <= 4 / 25.
 
   (* from "state = finishing map at Ew" and "Ew close to Es" to "position close to the report's at Es" *)
@@ -69,7 +69,7 @@ Section Generic.
     destruct (kep_vel radius theta eqinc ascn rdk rfdk) as [Kx [Ky Kz]].
     destruct (velocity_is_report el t e HA1 HeL Ew) as [Rx [Ry Rz]]. cbv zeta in Rx, Ry, Rz. unfold vfac in Rx, Ry, Rz.
     rewrite Kx, Ky, Kz, Ht, Hi, Ho, Hd, Hf, <- Rx, <- Ry, <- Rz.
-    destruct (velocity_lipschitz el t e HA1 HA2 HeL Ew Es) as [Lx [Ly Lz]].
+    destruct (velocity_lipschitz el t e HA1 HeL Ew Es) as [Lx [Ly Lz]].
     assert (Hq : sqrt (eL2 el t e) <= 2 / 5) by (apply (q_le el t e HeL)).
     assert (Hdd : Rabs (Ew - Es) <= 5 / 3 * (1 / 1000000000000)).
     { pose proof (Rabs_pos (Ew - Es)). nra. }
@@ -84,7 +84,7 @@ Theorem position_accuracy_leaf1 e0 i r w m n b ts j Ucap Ew radius theta eqinc a
   exit_ok e0 i r w m n b ts Ew radius theta eqinc ascn rdk rfdk smjaxs ->
   let El := E e0 i r w m n b in let T := mkT false ts in let ec := ecl e0 i r w m n b ts in
   Rabs (kepler_residual El T ec Ucap Ew) < 1 / 1000000000000 ->
-  a El T <= 2 -> eL2 El T ec <= 4 / 25 ->
+  a El T <= 4 -> eL2 El T ec <= 4 / 25 ->
   exists Es, kepler_residual El T ec Ucap Es = 0 /\
     (forall Es', kepler_residual El T ec Ucap Es' = 0 -> Es' = Es) /\
     Rabs (gen_kep2xyz_x radius theta eqinc ascn rdk rfdk - Pxf El T ec Es) <= 1 / 1000000 /\
@@ -101,7 +101,7 @@ Proof.
   destruct Hex as [Hr [Ht [Hi [Ho [Hd [Hf _]]]]]]. fold El T ec in Hr, Ht, Hi, Ho, Hd, Hf.
   exists Es. split; [exact H0|]. split; [exact Hu|].
   destruct (position_close El T ec G1 HA2 HeL Ew Es radius theta eqinc ascn rdk rfdk Hr Ht Hi Ho Hk) as [P1 [P2 P3]].
-  destruct (velocity_close El T ec G1 HA2 HeL Ew Es radius theta eqinc ascn rdk rfdk Ht Hi Ho Hd Hf Hk) as [V1 [V2 V3]].
+  destruct (velocity_close El T ec G1 HeL Ew Es radius theta eqinc ascn rdk rfdk Ht Hi Ho Hd Hf Hk) as [V1 [V2 V3]].
   repeat split; assumption.
 Qed.
 
@@ -112,7 +112,7 @@ Theorem position_accuracy_leaf3 e0 i r w m n b ts j Ucap Ew radius theta eqinc a
   exit_ok3 e0 i r w m n b ts Ew radius theta eqinc ascn rdk rfdk smjaxs ->
   let El := E e0 i r w m n b in let T := mkT true ts in let ec := ecl3 e0 i r w m n b ts in
   Rabs (kepler_residual El T ec Ucap Ew) < 1 / 1000000000000 ->
-  a El T <= 2 -> eL2 El T ec <= 4 / 25 ->
+  a El T <= 4 -> eL2 El T ec <= 4 / 25 ->
   exists Es, kepler_residual El T ec Ucap Es = 0 /\
     (forall Es', kepler_residual El T ec Ucap Es' = 0 -> Es' = Es) /\
     Rabs (gen_kep2xyz_x radius theta eqinc ascn rdk rfdk - Pxf El T ec Es) <= 1 / 1000000 /\
@@ -129,6 +129,6 @@ Proof.
   destruct Hex as [Hr [Ht [Hi [Ho [Hd [Hf _]]]]]]. fold El T ec in Hr, Ht, Hi, Ho, Hd, Hf.
   exists Es. split; [exact H0|]. split; [exact Hu|].
   destruct (position_close El T ec G1 HA2 HeL Ew Es radius theta eqinc ascn rdk rfdk Hr Ht Hi Ho Hk) as [P1 [P2 P3]].
-  destruct (velocity_close El T ec G1 HA2 HeL Ew Es radius theta eqinc ascn rdk rfdk Ht Hi Ho Hd Hf Hk) as [V1 [V2 V3]].
+  destruct (velocity_close El T ec G1 HeL Ew Es radius theta eqinc ascn rdk rfdk Ht Hi Ho Hd Hf Hk) as [V1 [V2 V3]].
   repeat split; assumption.
 Qed.
